@@ -87,6 +87,14 @@ func init() {
 			schedPair("variants-agg", func(n int) Call { return Call{Cmd: "variants", Msa: msa(n), RefID: "ref", Anno: gb, AnnoSuffix: "gb", Aggregate: true} })...),
 			schedPair("samvariants-agg", func(n int) Call { return Call{Cmd: "samvariants", Sam: samOf(n), Ref: fastaOf("ref", g12), Anno: gb, AnnoSuffix: "gb", Aggregate: true} })...)
 	})
+	add("C16", "fasta", func() []Scenario {
+		// readers of different kinds and gap modes at work at once (each must still see its own encoding table)
+		st := ">a\nAC-GT\n>b x\nNN-AC\n>c\nRY--A\n"
+		return []Scenario{
+			{Name: "readersconc/3rec", Family: "fasta", Mode: "U", Call: Call{Cmd: "readersconc", Msa: st, NCPU: 2}},
+			{Name: "readersconc/wrapped", Family: "fasta", Mode: "D3M0", Call: Call{Cmd: "readersconc", Msa: ">a\nAC\n-GT\n>b\nNN\n-AC\n", NCPU: 2}},
+		}
+	})
 	add("C17", "tables", func() []Scenario {
 		// the table-driven library functions used from 2 and 3 goroutines at once (first use in the run
 		// included: shared package-level state is re-initialised before every execution)
@@ -105,7 +113,10 @@ func init() {
 			}
 			return fastaOf(recs...)
 		}
-		return append(schedPair("variants-gb-ambig", func(n int) Call { return Call{Cmd: "variants", Msa: m(n), RefID: "ref", Anno: renderGenbank(g12, feats), AnnoSuffix: "gb", AppendSNP: true} }),
+		// GenBank features listed in descending order of their start (workers must not re-order shared structures)
+		desc := []Feat{{Name: "orfB", Segs: []Seg{{4, 9}}}, {Name: "orfA", Segs: []Seg{{1, 9}}}}
+		extra := schedPair("variants-gb-descending", func(n int) Call { return Call{Cmd: "variants", Msa: m(n), RefID: "ref", Anno: renderGenbank(g12, desc), AnnoSuffix: "gb"} })
+		return append(append(extra, schedPair("variants-gb-ambig", func(n int) Call { return Call{Cmd: "variants", Msa: m(n), RefID: "ref", Anno: renderGenbank(g12, feats), AnnoSuffix: "gb", AppendSNP: true} })...),
 			schedPair("variants-gff-ambig", func(n int) Call { return Call{Cmd: "variants", Msa: m(n), RefID: "ref", Anno: renderGFF(g12, feats, true, true), AnnoSuffix: "gff", AppendSNP: true} })...)
 	})
 	targets := func(n int) string { return fastaOf(mutated("ACGTACGTAAAA", n)...) }
